@@ -39,6 +39,16 @@ def run_show(thunk):
     return show_out(*collect(v))
 
 
+def run_show_typed(thunk):
+    """run_show plus the types of the delivered rows (a strategy argument must not turn a tuple row into the source's own list)"""
+    try:
+        v = thunk()
+    except Exception as e:   # noqa
+        return 'TB0 ERR ' + errkind(e)
+    rows, err = collect(v)
+    return show_out(rows, err) + ' |rowtypes ' + ','.join(sorted({type(r).__name__ for r in rows}))
+
+
 def enc_fspec(s):
     if isinstance(s, bool):
         raise proto.Unencodable('bool field spec')
